@@ -119,6 +119,52 @@ Fixpoint crows (M : mat) (i : nat) : mat * nat :=
 Definition chol (n : nat) (M : mat) : mat * nat := crows M n.
 (* rows of L are ragged (row i has i+1 entries); [get] reads the missing upper part as 0 *)
 
+(* ---------------------------------------------------------------- psd_safe_cholesky (utils/cholesky.py)
+   _psd_safe_cholesky factorises a whole BATCH in one call.  If any member fails, the loop
+       for i in range(max_tries):
+           jitter_new = jitter * (10**i)
+           diag_add = (info > 0) * (jitter_new - jitter_prev)      # "add jitter only where needed"
+           Aprime.diagonal().add_(diag_add);  jitter_prev = jitter_new
+           L, info = cholesky_ex(Aprime);   if not any(info): return L
+       raise NotPSDError
+   runs for all members together: a member that already factorised gets 0 added and is factorised again from the
+   same matrix.  [jstep] is one pass of the loop body for one member, [jloop] the loop over the batch.
+   jitter = settings.cholesky_jitter.value(dtype) is 10^-e in the model's settings (e = 8 for double, 6 for float);
+   10^k is computed by repeated multiplication (exact in binary64 for k <= 22, like Python's float(10**i)). *)
+Definition aten : F :=
+  let two := aadd A (a1 A) (a1 A) in let four := aadd A two two in aadd A (aadd A four four) two.
+Fixpoint apow10 (k : nat) : F := if k is k'.+1 then amul A (apow10 k') aten else a1 A.
+
+Definition add_diag (n : nat) (M : mat) (x : F) : mat :=
+  mtab n n (fun i j => if i == j then aadd A (get M i j) x else get M i j).
+
+(* state of one member: (Aprime, L, info) *)
+Definition jstate := (mat * mat * nat)%type.
+Definition jinit (n : nat) (M : mat) : jstate := let: (L, info) := chol n M in (M, L, info).
+Definition jstep (n : nat) (jit jprev : F) (i : nat) (st : jstate) : jstate :=
+  let: (Ap, _, info) := st in
+  let jnew := amul A jit (apow10 i) in
+  let Ap' := add_diag n Ap (if info != 0 then asub A jnew jprev else a0 A) in
+  let: (L', info') := chol n Ap' in (Ap', L', info').
+Definition jok (st : jstate) : bool := st.2 == 0.
+Definition jfac (st : jstate) : mat := st.1.2.
+
+Fixpoint jloop (n : nat) (jit : F) (sts : seq jstate) (jprev : F) (i k : nat) : option (seq mat) :=
+  if k is k'.+1 then
+    let sts' := map (jstep n jit jprev i) sts in
+    if all jok sts' then Some (map jfac sts') else jloop n jit sts' (amul A jit (apow10 i)) i.+1 k'
+  else None.
+
+(* the lower factors of a batch, or None = NotPSDError.  jexp, tries: the two settings *)
+Definition psd_safe_batch (jexp tries : nat) (n : nat) (Ms : seq mat) : option (seq mat) :=
+  let sts := map (jinit n) Ms in
+  if all jok sts then Some (map jfac sts)
+  else jloop n (adiv A (a1 A) (apow10 jexp)) sts (a0 A) 0 tries.
+
+(* one member on its own = a batch of one *)
+Definition psd_safe_chol (jexp tries : nat) (n : nat) (M : mat) : option mat :=
+  if psd_safe_batch jexp tries n [:: M] is Some [:: L] then Some L else None.
+
 (* ---------------------------------------------------------------- diagonal / identity
    DiagLinearOperator.solve: self.inverse()._matmul(rhs) = (1/d) * rhs *)
 Definition diag_solve (n : nat) (d : vec) (b : vec) : vec :=
@@ -227,7 +273,9 @@ Record settings := MkSettings {
   max_preconditioner_size : nat;
   min_preconditioning_size : nat;
   memory_efficient : bool;            (* read by Solve.forward only to decide what to save for backward *)
-  default_preconditioner : bool       (* beta_features.default_preconditioner *)
+  default_preconditioner : bool;      (* beta_features.default_preconditioner *)
+  cholesky_jitter_exp : nat;          (* cholesky_jitter.value(dtype) = 10^-e  (defaults: 8 for double, 6 for float) *)
+  cholesky_max_tries : nat            (* cholesky_max_tries *)
 }.
 
 Inductive diag_kind := DConst | DGeneral.
@@ -412,7 +460,9 @@ Inductive opd :=
 | DBlockDiag (k : nat) (blocks : seq opd)
 | DBlockInterleaved (k : nat) (blocks : seq opd)
 | DBatchRepeat (base : opd)
-| DPerm (perm : seq nat).
+| DPerm (perm : seq nat)
+| DCholOf (upper : bool) (base : opd).         (* CholLinearOperator(base.cholesky(upper=upper), upper=upper): a solve routed
+                                                  through the factor operator cholesky() returns for the class of `base` *)
 
 Fixpoint cls_of (o : opd) : cls :=
   match o with
@@ -430,6 +480,7 @@ Fixpoint cls_of (o : opd) : cls :=
   | DBlockInterleaved k bs => CBlockInterleaved k (if bs is b :: _ then cls_of b else CGeneric 0)
   | DBatchRepeat b => CBatchRepeat (cls_of b)
   | DPerm p => CPermutation (size p)
+  | DCholOf _ b => CChol (csize (cls_of b))
   end.
 
 (* the matrix an operator denotes (what to_dense() returns; used by the base-class _cholesky) *)
@@ -468,6 +519,7 @@ Fixpoint dense_of (o : opd) : mat :=
       mtab (k * m) (k * m) (fun i j => if i %% k == j %% k then get A (nth [::] Ms (i %% k)) (i %/ k) (j %/ k) else a0 A)
   | DBatchRepeat b => dense_of b
   | DPerm p => mtab (size p) (size p) (fun i j => if nth 0 p i == j then a1 A else a0 A)
+  | DCholOf _ b => dense_of b                   (* R^T R = L L^T = the matrix of the base *)
   end.
 
 Definition osize (o : opd) : nat := csize (cls_of o).
@@ -475,27 +527,36 @@ Definition osize (o : opd) : nat := csize (cls_of o).
 (* map a partial per-column kernel over columns *)
 Definition omap (f : vec -> vec) (X : cols) : option cols := Some (map f X).
 
-(* base-class _cholesky on the dense matrix: the lower factor, or None when cholesky_ex reports a
-   non-positive pivot (psd_safe_cholesky would then start adding jitter: not modelled, PD inputs only) *)
-Definition dense_cholesky (n : nat) (M : mat) : option mat :=
+(* base-class _cholesky on the dense matrix of ONE batch member: the lower factor psd_safe_cholesky returns (with the
+   jitter IT needed - the other members of the batch do not matter: ProofsJitter.psd_safe_batch_member), or None when
+   the jitter ladder is exhausted (NotPSDError) *)
+Definition dense_cholesky (s : settings) (n : nat) (M : mat) : option mat :=
   if n == 1 then
     let x := get A M 0 0 in Some [:: [:: asqrt A (if altb A x (a0 A) then a0 A else x)]]   (* clamp_min(0).sqrt() *)
-  else let: (L, info) := chol A n M in if info == 0 then Some L else None.
+  else psd_safe_chol A (cholesky_jitter_exp s) (cholesky_max_tries s) n M.
 
 Definition ohead (x : option cols) : vec := if x is Some (v :: _) then v else [::].
 
-(* linear_op.cholesky()._cholesky_solve(rhs) for a class whose plan is p *)
-Fixpoint run_plan (o : opd) (p : cplan) (X : cols) {struct o} : option cols :=
+(* linear_op.cholesky(upper=up)._cholesky_solve(rhs, upper=up) for a class whose plan is p.
+   up = false is what functions/_solve.py runs (linear_op.cholesky()._cholesky_solve(rhs)); up = true is a solve routed
+   through the upper factor (CholLinearOperator(op.cholesky(upper=True), upper=True)).  cholesky(upper=True) is the
+   lower factor transposed (LinearOperator.cholesky), and every structured factor hands `upper` down to its parts. *)
+Fixpoint run_plan (s : settings) (up : bool) (o : opd) (p : cplan) (X : cols) {struct o} : option cols :=
   match p, o with
   | (PDense _ | PScalar), _ =>
       let n := osize o in
-      if dense_cholesky n (dense_of o) is Some L then omap (chol_solve A false n L) X else None
+      if dense_cholesky s n (dense_of o) is Some L then
+        omap (if up then chol_solve A true n (trm A n L) else chol_solve A false n L) X
+      else None
   | PDiag, DDiag n d => omap (diag_chol_solve A n (map (asqrt A) d)) X
   | PIdentity, _ => Some X
-  | PRoot, DChol up n T => omap (chol_solve A up n T) X
+  | PRoot, DChol up0 n T =>
+      (* CholLinearOperator._cholesky(upper): the root if the orientations agree, else its transpose *)
+      omap (chol_solve A up n (if up == up0 then T else trm A n T)) X
   | PKron ps, DKron fs =>
-      (* KroneckerProductTriangular._cholesky_solve(upper=False): w = L^-1 rhs ; L^-T w, factor by factor *)
-      let Ls := map (fun f => (osize f, dense_cholesky (osize f) (dense_of f))) fs in
+      (* KroneckerProductTriangular._cholesky_solve: w = (kron L_i)^-1 rhs ; (kron L_i^T)^-1 w, factor by factor - the same
+         two sweeps for either orientation (upper: the stored factors are the L_i^T and the first sweep uses their transposes) *)
+      let Ls := map (fun f => (osize f, dense_cholesky s (osize f) (dense_of f))) fs in
       if all (fun x => isSome x.2) Ls then
         let fw := map (fun x => (x.1, tri_solve A false x.1 (if x.2 is Some L then L else [::]))) Ls in
         let bw := map (fun x => (x.1, tri_solve A true x.1 (trm A x.1 (if x.2 is Some L then L else [::])))) Ls in
@@ -504,13 +565,13 @@ Fixpoint run_plan (o : opd) (p : cplan) (X : cols) {struct o} : option cols :=
       else None
   | PBlocks k p', DBlockDiag _ bs =>
       let m := if bs is b :: _ then osize b else 0 in
-      let sv := map (fun b v => ohead (run_plan b p' [:: v])) bs in
-      if all (fun b => isSome (run_plan b p' [::])) bs then omap (block_solve A false k m sv) X else None
+      let sv := map (fun b v => ohead (run_plan s up b p' [:: v])) bs in
+      if all (fun b => isSome (run_plan s up b p' [::])) bs then omap (block_solve A false k m sv) X else None
   | PBlocks k p', DBlockInterleaved _ bs =>
       let m := if bs is b :: _ then osize b else 0 in
-      let sv := map (fun b v => ohead (run_plan b p' [:: v])) bs in
-      if all (fun b => isSome (run_plan b p' [::])) bs then omap (block_solve A true k m sv) X else None
-  | PRepeat p', DBatchRepeat b => run_plan b p' X
+      let sv := map (fun b v => ohead (run_plan s up b p' [:: v])) bs in
+      if all (fun b => isSome (run_plan s up b p' [::])) bs then omap (block_solve A true k m sv) X else None
+  | PRepeat p', DBatchRepeat b => run_plan s up b p' X
   | _, _ => None
   end.
 
@@ -524,31 +585,32 @@ Fixpoint direct (m : method) : bool :=
   end.
 
 (* run method m on operator o.  None = no value model (CG, or a factorisation failed) *)
-Fixpoint run_method (o : opd) (m : method) (X : cols) {struct o} : option cols :=
+Fixpoint run_method (s : settings) (o : opd) (m : method) (X : cols) {struct o} : option cols :=
   if ~~ direct m then None else
   match m, o with
   | MDiagDiv, DDiag n d => omap (diag_solve A n d) X
   | MIdentity, _ => Some X
   | MCholFactor, DChol up n T => omap (chol_solve A up n T) X
+  | MCholFactor, DCholOf up b => run_plan s up b (cholesky_plan (cls_of b)) X      (* root._cholesky_solve(rhs, upper=self.upper) *)
   | MTriSubst, DTriDense up n T => omap (tri_solve A up n T) X
-  | MTriViaBase m', DTriOver _ b => run_method b m' X
+  | MTriViaBase m', DTriOver _ b => run_method s b m' X
   | MWoodbury _, DLowRankRootAddedDiag n k U d =>
-      if dense_cholesky k (cap_mat A n k U d) is Some Lc then omap (woodbury_solve A n k U d Lc) X else None
-  | MCholesky p, _ => run_plan o p X
+      if dense_cholesky s k (cap_mat A n k U d) is Some Lc then omap (woodbury_solve A n k U d Lc) X else None
+  | MCholesky p, _ => run_plan s false o p X
   | MKronFactors ms, DKron fs =>
       let acts := (fix go (fs : seq opd) (ms : seq method) : seq (nat * (vec -> vec)) :=
                      match fs, ms with
-                     | f :: fs', m' :: ms' => (osize f, fun v => ohead (run_method f m' [:: v])) :: go fs' ms'
+                     | f :: fs', m' :: ms' => (osize f, fun v => ohead (run_method s f m' [:: v])) :: go fs' ms'
                      | _, _ => [::]
                      end) fs ms in
       Some (kron_apply A acts (size X) X)
   | MEigShift _, DKronAddedDiag _ DConst d eig => Some (eigshift_solve A eig (vget A d 0) (size X) X)
   | MBlocks k m', DBlockDiag _ bs =>
       let mm := if bs is b :: _ then osize b else 0 in
-      omap (block_solve A false k mm (map (fun b v => ohead (run_method b m' [:: v])) bs)) X
+      omap (block_solve A false k mm (map (fun b v => ohead (run_method s b m' [:: v])) bs)) X
   | MBlocks k m', DBlockInterleaved _ bs =>
       let mm := if bs is b :: _ then osize b else 0 in
-      omap (block_solve A true k mm (map (fun b v => ohead (run_method b m' [:: v])) bs)) X
+      omap (block_solve A true k mm (map (fun b v => ohead (run_method s b m' [:: v])) bs)) X
   | MPermT, DPerm p => omap (perm_solve A p) X
   | _, _ => None
   end.
@@ -577,16 +639,16 @@ Definition alg_solve (s : settings) (o : opd) (right : cols) (left : option (nat
   let n := osize o in
   let m := select_solve s (cls_of o) in
   if own_solve (cls_of o) then
-    if run_method o m right is Some X then
+    if run_method s o m right is Some X then
       Some (if left is Some (k, L) then left_mul A k n L X else X)
     else None
   else
     match left with
-    | None => run_method o m right
+    | None => run_method s o m right
     | Some (k, L) =>
         (* rhs = cat([left.mT, right], -1); res = left @ solves[..., left.size(-2):] *)
         let lt := mkseq (fun i => mkseq (fun j => get A L i j) n) k in
-        if run_method o m (lt ++ right) is Some Sol then Some (left_mul A k n L (drop k Sol)) else None
+        if run_method s o m (lt ++ right) is Some Sol then Some (left_mul A k n L (drop k Sol)) else None
     end.
 
 End Alg.
